@@ -245,6 +245,17 @@ def findIsomorphismsWith (pick : Map → Cands → List Int → Int) (edgeNone :
 def findIsomorphisms (edgeNone : Bool) (g sg : Graph) (C : Constraints) : List Map :=
   findIsomorphismsWith (fun _ => pickMin) edgeNone g sg C
 
+/-! ### `subgraph_is_isomorphic`, `is_isomorphic` -/
+
+/-- `subgraph_is_isomorphic(symmetry)`: `next(self.subgraph_isomorphisms_iter(symmetry), None) is not None` -/
+def subgraphIsIsomorphicWith (pick : Map → Cands → List Int → Int) (edgeNone : Bool) (g sg : Graph)
+    (C : Constraints) : Bool :=
+  !(findIsomorphismsWith pick edgeNone g sg C).isEmpty
+
+/-- `is_isomorphic(symmetry)`: `len(self.subgraph) == len(self.graph) and self.subgraph_is_isomorphic(symmetry)` -/
+def isIsomorphicWith (pick : Map → Cands → List Int → Int) (edgeNone : Bool) (g sg : Graph) (C : Constraints) : Bool :=
+  sg.keys.length == g.keys.length && subgraphIsIsomorphicWith pick edgeNone g sg C
+
 /-! ### `_remove_node`, `_largest_common_subgraph`, `largest_common_subgraph` -/
 
 /-- `_remove_node(node, nodes, constraints)`: follow constraints `(node, high)` with `high in nodes`
